@@ -31,6 +31,8 @@ from concurrent.futures import ProcessPoolExecutor
 import multiprocessing
 from pathlib import Path
 
+from . import fingerprint
+
 VERIF = Path(__file__).resolve().parents[2]
 LEAN = VERIF / "lean"
 HMODEL = LEAN / ".lake" / "build" / "bin" / "hmodel"
@@ -39,6 +41,7 @@ ALLOWED_AXIOMS = {"propext", "Quot.sound", "Classical.choice"}
 FORBIDDEN = re.compile(r"\bsorry\b|\badmit\b|^\s*axiom\s|native_decide|bv_decide|implemented_by|"
                        r"\bunsafe\s|maxHeartbeats\s+0\b", re.M)
 NCPU = int(os.environ.get("VERIF_JOBS", "16"))
+ESCALATION = 1      # set by run_check: >1 when /repo differs structurally from the registered tree
 
 
 class Infra(Exception):
@@ -473,6 +476,20 @@ def run_check(prop, tier, seed, replay=None):
             raise Infra("leanchecker rejected %s: %s" % (prop.AUDIT_IMPORTS, out))
         checker_note = "; leanchecker re-checked %s" % ",".join(prop.AUDIT_IMPORTS)
 
+    # ---- did the source change structurally? (more cases if so; not a verdict) ---------------
+    global ESCALATION
+    src_changed = []
+    try:
+        src_changed = fingerprint.changed(REPO, "ALL")
+    except Exception as e:          # a tree that does not parse is not this step's business
+        notes.append("fingerprint step skipped: %r" % (e,))
+    anchored = [c for c in src_changed if c.split(":")[0] in fingerprint.anchored_files(prop.ID)]
+    ESCALATION = 1
+    if src_changed and not replay:
+        ESCALATION = int(os.environ.get("VERIF_ESCALATE", getattr(prop, "ESCALATE", 6)))
+        notes.append("source differs structurally from the registered tree in %d place(s) (%d in this property's "
+                     "anchored files): generating %dx the cases" % (len(src_changed), len(anchored), ESCALATION))
+
     # ---- implementation ----------------------------------------------------
     hyp = load_impl(build_c=getattr(prop, "BUILD_C", False))
     if hasattr(prop, "setup"):
@@ -582,8 +599,9 @@ def run_check(prop, tier, seed, replay=None):
                 samples.append(s)
             for payload, suffix in ex.get("violations", []):
                 violations.append((write_replay(prop, payload), suffix))
-        # generated cases
-        ncases = prop.CASES[tier]
+        # generated cases; several times more of them when the source differs structurally from the tree
+        # the check was registered on (lib/fingerprint.py) - never a verdict, only more search
+        ncases = prop.CASES[tier] * ESCALATION
         budget = prop.BUDGET_S[tier] if hasattr(prop, "BUDGET_S") else (50 if tier == "quick" else 780)
         deadline = time.time() + budget
         nshards = min(NCPU, max(1, ncases // 5))
@@ -669,6 +687,7 @@ def run_check(prop, tier, seed, replay=None):
             "disagreements_checked": disagreements,
             "known_findings_reproduced": sorted(reproduced),
             "notes": notes,
+            "anchored_source_changed": src_changed[:40],
             "lake_build_s": round(build_s, 2),
         },
         "assumptions": list(getattr(prop, "ASSUMPTIONS", [])),
